@@ -890,7 +890,9 @@ package stack
 //@   requires arg != nil && objects != nil
 //@   modifies mapof(objects)
 //@   ensures [visitSkipsNonPointers C15] !arg.IsPtr ==> (forall v uint64 :: dom(objects, v) == old(dom(objects, v)) && objects[v].inPrimary == old(objects[v].inPrimary) && sameslice(objects[v].args, old(objects[v].args)))
-//@   ensures [visitRecordsPointer C15] arg.IsPtr ==> dom(objects, arg.Value) && len(objects[arg.Value].args) == old(dom(objects, arg.Value) ? len(objects[arg.Value].args) : 0) + 1 && objects[arg.Value].args[len(objects[arg.Value].args) - 1] == arg
+//@   ensures [visitRecordsPointer C15] arg.IsPtr ==> dom(objects, arg.Value) && len(objects[arg.Value].args) >= 1 && objects[arg.Value].args[len(objects[arg.Value].args) - 1] == arg
+//@   ensures [visitAppendsToKnownValue C15] arg.IsPtr && old(dom(objects, arg.Value)) ==> len(objects[arg.Value].args) == old(len(objects[arg.Value].args)) + 1
+//@   ensures [visitStartsListForNewValue C15] arg.IsPtr && !old(dom(objects, arg.Value)) ==> len(objects[arg.Value].args) == 1
 //@   ensures [visitKeepsEarlierOccurrences C15] arg.IsPtr && old(dom(objects, arg.Value)) ==> forall i :: 0 <= i && i < old(len(objects[arg.Value].args)) ==> objects[arg.Value].args[i] == old(objects[arg.Value].args[i])
 //@   ensures [visitOrsPrimaryFlag C15] arg.IsPtr ==> (objects[arg.Value].inPrimary <==> (old(dom(objects, arg.Value) && objects[arg.Value].inPrimary) || primary))
 //@   ensures [visitLeavesOtherValues C15] forall v uint64 :: v != arg.Value ==> dom(objects, v) == old(dom(objects, v)) && objects[v].inPrimary == old(objects[v].inPrimary) && sameslice(objects[v].args, old(objects[v].args))
@@ -901,6 +903,8 @@ package stack
 //@   requires a != nil && objects != nil && (forall v uint64 :: dom(objects, v) ==> len(objects[v].args) >= 1) && (forall v uint64, i int :: dom(objects, v) && 0 <= i && i < len(objects[v].args) ==> objects[v].args[i] != nil && objects[v].args[i].Value == v && objects[v].args[i].IsPtr)
 //@   modifies mapof(objects)
 //@   ensures (forall v uint64 :: dom(objects, v) ==> len(objects[v].args) >= 1) && (forall v uint64, i int :: dom(objects, v) && 0 <= i && i < len(objects[v].args) ==> objects[v].args[i] != nil && objects[v].args[i].Value == v && objects[v].args[i].IsPtr)
+//@   loop 0: invariant -1 <= rangeindex && objects != nil && (forall v uint64 :: dom(objects, v) ==> len(objects[v].args) >= 1) && (forall v uint64, i int :: dom(objects, v) && 0 <= i && i < len(objects[v].args) ==> objects[v].args[i] != nil && objects[v].args[i].Value == v && objects[v].args[i].IsPtr)
+//@   loop 0: decreases len(a.Values) - rangeindex
 
 //@ func nameArguments
 //@   option det=both key lists are sorted after being collected in map order and the keys of a map are distinct, so each naming loop runs over the strictly ascending enumeration of a set of keys that is a function of the map (asserts firstOrderExact, secondOrderExact)
@@ -1023,3 +1027,28 @@ package stack
 //@   loop 0: invariant -1 <= rangeindex
 //@   loop 0: invariant forall g, j :: 0 <= g && g <= rangeindex && 0 <= j && j < len(s.Goroutines[g].Stack.Calls) ==> Located(&s.Goroutines[g].Stack.Calls[j], s.RemoteGOROOT, s.LocalGOROOT, s.LocalGomods, s.RemoteGOPATHs)
 //@   loop 0: decreases len(s.Goroutines) - rangeindex
+
+// ---- html.go: hand-built URL / class helpers (C03: memory safety only) -------------
+//@ func splitHost
+//@   modifies nothing
+//@ func splitTag
+//@   modifies nothing
+//@ func escape
+//@   modifies nothing
+//@ func symbol
+//@   requires f != nil
+//@   modifies nothing
+//@ func getSrcBranchURL
+//@   requires c != nil
+//@   modifies nothing
+//@ func srcURL
+//@   requires c != nil
+//@   modifies nothing
+//@ func pkgURL
+//@   requires c != nil
+//@   modifies nothing
+//@ func funcClass
+//@   requires c != nil
+//@   modifies nothing
+//@ func minus
+//@   modifies nothing
